@@ -143,7 +143,7 @@ func (s *Spec) SetLang(lang string) {
 		}
 		s.Prologue = "\n\"use strict\";\n"
 		s.Union = u.String()
-		s.Epilogue = "\nfunction GetToken(input :string, model:{ValType :ValType, pos :number}) :number {\n\treturn -1\n}\n"
+		s.Epilogue = "\nfunction GetToken(input :string, model:{ValType :ValType, pos :number}) :number {\n\tconst rem = 7 % 3 // 100%\n\treturn rem - 2\n}\n"
 		return
 	}
 	for _, f := range fields {
